@@ -6,6 +6,7 @@ import IRModel.Lemmas.WrapC08
 import IRModel.Lemmas.WrapC06
 import IRModel.Lemmas.WrapC04
 import IRModel.Lemmas.WrapC13
+import IRModel.Lemmas.WrapC07H
 /-!
 # Wrapper-level theorems (per-protocol `encode()` / `decode()` bodies inside the model)
 
@@ -55,6 +56,19 @@ theorem C07_wrapper (t : Tables) (w : Wrapper) (hok : c07OK t w = true) (inst : 
     | .error e, .error e' => e = e'
     | _, _ => False :=
   C07_wrapper_spec t w (c07OK_spec t w hok) inst l hl hwf data hlong
+
+/-- **C07 over histories**, from the kernel-checked obligations `c07OK` and `c08OK` of one protocol: whatever sequence
+    of integer lists — frames of any key, repeats, garbage — one decoder instance was fed since it was created, a frame
+    longer than a repeat marker is then answered exactly as by a decoder without history. (`C07_wrapper` for an
+    arbitrary well-formed held code, composed with the invariant of `C08_wrapper` that the held code always is one.) -/
+theorem C07_wrapper_history (t : Tables) (w : Wrapper) (h7 : c07OK t w = true) (h8 : c08OK t w = true) (tol : Match.Tol)
+    (inputs : List (List Int)) (data : List Int) (hlong : data.length > t.repeatLeadIn.length + t.repeatLeadOut.length) :
+    match (decodeP t w (finalInst t w { last := none, tol := tol } inputs) data).result,
+          (decodeP t w { last := none, tol := tol } data).result with
+    | .ok c, .ok c' => ∀ ep ∈ t.encodeParams, c.get (Props.C01.viewKey ep.1) = c'.get (Props.C01.viewKey ep.1)
+    | .error e, .error e' => e = e'
+    | _, _ => False :=
+  IRModel.Wrap.C07_wrapper_history t w (c07OK_spec t w h7) (c08OK_spec t w h8) tol inputs data hlong
 
 /-- **C03 at wrapper level**, from the kernel-checked obligations of one protocol: for EVERY non-negative parameter
     assignment and `repeat_count` 0, 1, 2, every frame the traced `encode()` emits — `_build_packet` frames and
